@@ -431,6 +431,7 @@ func (c *Channel) RequeueMessage(clientID int64, id MessageID, timeout time.Dura
 	if err != nil {
 		return err
 	}
+	verifPoint("req:after-pop")
 	atomic.AddUint64(&c.requeueCount, 1)
 
 	if timeout == 0 {
